@@ -97,14 +97,18 @@ def seqLogProbsFlat (A T B V : Nat) (eos : Option Int) (lsm : Nat → Rat) (hyp 
   (List.range (A * B)).map (fun o => colScore V eos (lsmCol T B V lsm o) (hypCol T B hyp o))
 
 /-- `sequence_log_probs(logits, hyp, dim, eos)` for a tensor `hyp` of shape `shape`;
-`none` = `RuntimeError` (dimension out of range). -/
+`none` = `RuntimeError`: dimension out of range, or no class at all (`V = 0`) while `hyp` has
+cells — `hyp.masked_fill(mask, 0)` then asks `gather` for class `0` of an empty class dimension
+("index 0 is out of bounds for dimension … with size 0"; with an empty `hyp` nothing is
+gathered and the result is the empty sum). -/
 def seqLogProbs (shape : List Nat) (V : Nat) (dim : Int) (eos : Option Int) (lsm : Nat → Rat)
     (hyp : Nat → Int) : Option (List Rat) :=
   match normDim shape.length dim with
   | none => none
   | some d =>
-    some (seqLogProbsFlat (prod (shape.take d)) (shape.getD d 1) (prod (shape.drop (d + 1))) V eos
-      lsm hyp)
+    if V = 0 ∧ prod shape ≠ 0 then none
+    else some (seqLogProbsFlat (prod (shape.take d)) (shape.getD d 1) (prod (shape.drop (d + 1))) V
+      eos lsm hyp)
 
 /-! ## `PackedSequence` input -/
 
@@ -136,12 +140,14 @@ def sortIdx (sidx : Option (List Nat)) (i : Nat) : Nat :=
   | none => i
   | some s => s.getD i 0
 
-/-- `_sequence_log_probs_ps((data, batch_sizes, sorted_indices, unsorted_indices), hyp, dim)`.
-`lsm r v` is the log-softmax value of class `v` in packed row `r`; `hyp n t` is the token of
-sequence `n` (in the caller's order) at step `t`; `N`, `T` the sizes of `hyp`.
-`none` = the `RuntimeError` of `pack_padded_sequence` (a length of zero, i.e. `hyp` has more
-sequences than the packed batch, no sequence at all, or steps missing in `hyp`). -/
-def seqLogProbsPacked (V N T : Nat) (lsm : Nat → Nat → Rat) (bs : List Nat)
+/-- `_sequence_log_probs_ps` after `index_select`: `N` is the number of sequences `hyp` has
+**after** the selection by `sorted_indices`. `lsm r v` is the log-softmax value of class `v` in
+packed row `r`; `hyp n t` is the token of sequence `n` (in the caller's order) at step `t`; `T`
+the number of steps of `hyp`. `none` = the `RuntimeError` of `pack_padded_sequence` (a length of
+zero, i.e. `hyp` has more sequences than the packed batch, no sequence at all, or steps missing
+in `hyp`). The gather `logits[unsorted_indices]` is totalised here (`getD`); the entry point
+`seqLogProbsPacked` rejects indices outside the batch first. -/
+def seqLogProbsPackedCore (V N T : Nat) (lsm : Nat → Nat → Rat) (bs : List Nat)
     (sidx uidx : Option (List Nat)) (hyp : Nat → Nat → Int) : Option (List Rat) :=
   let hypS : Nat → Nat → Int := fun i t => hyp (sortIdx sidx i) t
   let lens := lensOfBatchSizes N bs
@@ -156,5 +162,33 @@ def seqLogProbsPacked (V N T : Nat) (lsm : Nat → Nat → Rat) (bs : List Nat)
   match uidx with
   | none => some sums
   | some u => some (u.map (fun j => sums.getD j 0))
+
+/-- An index tensor holds an entry outside `[0, n)`: `index_select` and `logits[idx]` raise
+`IndexError` (negative indices are not modelled). -/
+def idxOob (n : Nat) (idx : Option (List Nat)) : Bool :=
+  match idx with
+  | none => false
+  | some l => l.any (fun i => decide (n ≤ i))
+
+/-- Number of sequences of `hyp` after `torch.index_select(hyp, batch_dim, sorted_indices)`: one
+per index (whatever the size of `hyp` was). -/
+def selectedCount (N : Nat) (sidx : Option (List Nat)) : Nat :=
+  match sidx with
+  | none => N
+  | some s => s.length
+
+/-- `_sequence_log_probs_ps((data, batch_sizes, sorted_indices, unsorted_indices), hyp, dim)`;
+`N`, `T` are the sizes of the caller's `hyp`. `none` = the call raises:
+* `IndexError` of `index_select` (a sorted index `≥ N`),
+* `RuntimeError` of `pack_padded_sequence` (see `seqLogProbsPackedCore`),
+* `RuntimeError` of `pad_packed_sequence` when the selected `hyp` has fewer sequences than the
+  packed batch (the gathered rows are then fewer than `batch_sizes` asks for),
+* `IndexError` of `logits[unsorted_indices]` (an index `≥ batch_sizes[0]`). -/
+def seqLogProbsPacked (V N T : Nat) (lsm : Nat → Nat → Rat) (bs : List Nat)
+    (sidx uidx : Option (List Nat)) (hyp : Nat → Nat → Int) : Option (List Rat) :=
+  if idxOob N sidx then none
+  else if selectedCount N sidx < bs.headD 0 then none
+  else if idxOob (bs.headD 0) uidx then none
+  else seqLogProbsPackedCore V (selectedCount N sidx) T lsm bs sidx uidx hyp
 
 end PdtVerif.SeqScore
